@@ -1509,7 +1509,14 @@ class FuncFileCopy(ValueFunc):
     def execute(self, args, environment, pos):
         src = args.getString("src").value
         dest = args.getString("dest").value
-        shutil.copy2(src, dest)
+        try:
+            shutil.copy2(src, dest)
+        except Exception:
+            raise CklRuntimeError(
+                ValueString("ERROR"),
+                "Cannot copy file " + src + " to " + dest,
+                pos,
+            )
         return NULL
 
 
